@@ -198,3 +198,49 @@ Proof.
   eapply Forall_impl; [|exact Hmax]. intros v Hv. cbn beta in Hv. unfold ok32.
   destruct (Bltb_true_not_nan _ _ _ _ Hv) as [-> _]. reflexivity.
 Qed.
+
+(* ---- C04 for Method::Single through nnchain, generic and primitive on the two
+   float carriers: NaN-free input strictly below the max_value sentinel ---- *)
+Theorem single_cuts_f64 (p : profile) (a : algo) s d (m : list PrimFloat.float) (n : N) s' d' m' M0 :
+  a = ANnchain \/ a = AGeneric \/ a = APrimitive ->
+  run_with F64 p a Single s d m n = Ok (s', d', m') ->
+  prologue p m n = Ok M0 -> 1 <= m_obs M0 ->
+  Forall (fun v => PrimFloat.ltb v (f_max F64) = true) m ->
+  forall t : PrimFloat.float, PrimFloat.is_nan t = false ->
+  exists j, j <= m_obs M0 - 1 /\ cut_at (kops_of F64 Single) t j (heights d')
+    /\ forall x y, x < m_obs M0 -> y < m_obs M0 ->
+        (labi (m_obs M0) (d_steps d') j x = labi (m_obs M0) (d_steps d') j y
+         <-> conn PrimFloat.ltb (dcell (kops_of F64 Single) M0) (seq 0 (m_obs M0)) t x y).
+Proof.
+  intros Ha Hrun HM0 Hn1 Hmax t Ht.
+  apply (@single_cuts_carrier _ F64 ok64 eq_refl eq_refl f64_ltb_irrefl f64_ltb_trans
+           ltac:(intros x y z Hx Hy Hz; apply f64_ltb_negtrans; unfold ok64 in *;
+                 [destruct (PrimFloat.is_nan x)|destruct (PrimFloat.is_nan y)|destruct (PrimFloat.is_nan z)]; (reflexivity || discriminate))
+           f64_eqb_not_lt f64_eqb_refl_ok p a s d m n s' d' m' M0 Ha Hrun HM0 Hn1).
+  - eapply Forall_impl; [|exact Hmax]. intros v Hv. cbn beta in Hv. unfold ok64.
+    rewrite ltb_equiv in Hv. rewrite is_nan_equiv. destruct (Bltb_true_not_nan _ _ _ _ Hv) as [-> _]. reflexivity.
+  - exact Hmax.
+  - unfold ok64. rewrite Ht. reflexivity.
+Qed.
+
+Theorem single_cuts_f32 (p : profile) (a : algo) s d (m : list f32) (n : N) s' d' m' M0 :
+  a = ANnchain \/ a = AGeneric \/ a = APrimitive ->
+  run_with F32 p a Single s d m n = Ok (s', d', m') ->
+  prologue p m n = Ok M0 -> 1 <= m_obs M0 ->
+  Forall (fun v => Bltb v (f_max F32) = true) m ->
+  forall t : f32, BinarySingleNaN.is_nan t = false ->
+  exists j, j <= m_obs M0 - 1 /\ cut_at (kops_of F32 Single) t j (heights d')
+    /\ forall x y, x < m_obs M0 -> y < m_obs M0 ->
+        (labi (m_obs M0) (d_steps d') j x = labi (m_obs M0) (d_steps d') j y
+         <-> conn (@Bltb 24 128) (dcell (kops_of F32 Single) M0) (seq 0 (m_obs M0)) t x y).
+Proof.
+  intros Ha Hrun HM0 Hn1 Hmax t Ht.
+  apply (@single_cuts_carrier _ F32 ok32 eq_refl eq_refl (@Bltb_irrefl 24 128) (@Bltb_trans 24 128)
+           ltac:(intros x y z Hx Hy Hz; apply (@Bltb_negtrans 24 128); unfold ok32 in *;
+                 [destruct (BinarySingleNaN.is_nan x)|destruct (BinarySingleNaN.is_nan y)|destruct (BinarySingleNaN.is_nan z)]; (reflexivity || discriminate))
+           (@Beqb_not_lt 24 128) f32_eqb_refl_ok p a s d m n s' d' m' M0 Ha Hrun HM0 Hn1).
+  - eapply Forall_impl; [|exact Hmax]. intros v Hv. cbn beta in Hv. unfold ok32.
+    destruct (Bltb_true_not_nan _ _ _ _ Hv) as [-> _]. reflexivity.
+  - exact Hmax.
+  - unfold ok32. rewrite Ht. reflexivity.
+Qed.
